@@ -43,6 +43,14 @@ def _recv(fd, timeout=WATCHDOG):
     return json.loads(_recv_exact(fd, n, timeout).decode())
 
 
+def _safe_str(e):
+    """str(e), for exception classes whose own __str__ is broken."""
+    try:
+        return str(e)
+    except Exception:
+        return repr(getattr(e, "args", "?"))
+
+
 class _ActorSide:
     """Runs inside an actor process."""
 
@@ -184,7 +192,7 @@ def _actor_main(index, root, script_fn, to_ctrl, from_ctrl):
                 result["values"] = script_fn(side)
             except BaseException as e:  # noqa
                 result["ok"] = False
-                result["error"] = [type(e).__name__, str(e)[:300], traceback.format_exc()[-1200:]]
+                result["error"] = [type(e).__name__, _safe_str(e)[:300], traceback.format_exc()[-1200:]]
             side.armed = False
         _send(to_ctrl, {"t": "done", "result": result})
     except BaseException:
